@@ -56,9 +56,9 @@ TNew ==
         /\ holder' = <<[r |-> v.r, s |-> v.n]>>
         /\ vt' = (v.r :> v)
     /\ buf' = <<>> /\ blocked' = 0 /\ dead' = {} /\ rolled' = {} /\ leak' = NoLeak /\ quiet' = FALSE
-    \* both variants of the code (D3 as it is / repaired) are tried; the one that does not explain the
-    \* recorded events dies at the first difference
-    /\ \E f \in BOOLEAN : conf' = [buf |-> Ev.in.buf, q |-> Ev.in.q, snaps |-> Ev.in.snaps, cpmod |-> Ev.in.cpmod, f3 |-> f]
+    \* in.f3: which variant of the code is under test (D3 as it is / repaired), observed by the harness with a
+    \* behavioural probe of the real storagePruningManager
+    /\ conf' = [buf |-> Ev.in.buf, q |-> Ev.in.q, snaps |-> Ev.in.snaps, cpmod |-> Ev.in.cpmod, f3 |-> (Ev.in.f3 = 1)]
     /\ snaps' = <<>> /\ sq' = <<>> /\ cur' = <<>> /\ jobs' = <<>>
     /\ clean' = (Ev.in.clean = 1) /\ manual' = 0
     /\ hist' = <<[a |-> "New", in |-> Ev.in, out |-> Ev.out, st |-> Ev.st]>>
@@ -101,7 +101,8 @@ JobsAfter(js, done) ==
         IF \E i \in DOMAIN done : ~js[j].done /\ js[j].v.r = done[i].r /\ js[j].kind = done[i].kind
         THEN LET d == done[CHOOSE i \in DOMAIN done : js[j].v.r = done[i].r /\ js[j].kind = done[i].kind]
              IN  [js[j] EXCEPT !.done = TRUE, !.judged = TRUE,
-                               !.ok = (d.found = 1 /\ js[j].v.n \subseteq ToSet(d.snap) /\ d.alone = 1)]
+                               !.ok = (d.found = 1 /\ js[j].v.n \subseteq ToSet(d.snap) /\ d.alone = 1),
+                               !.miss = IF d.found = 1 THEN js[j].v.n \ ToSet(d.snap) ELSE js[j].v.n]
         ELSE js[j]]
 
 JobEvent(name, js) ==
@@ -140,7 +141,7 @@ ObsNew ==
     /\ l <= Len(TLog) /\ Ev.a = "New" /\ ObsCommon
     /\ vt' = (Ev.out.r :> VersionOf(Ev.out))
     /\ chain' = ObsChain /\ dead' = {} /\ quiet' = FALSE /\ blocked' = 0 /\ jobs' = <<>>
-    /\ conf' = [buf |-> Ev.in.buf, q |-> Ev.in.q, snaps |-> Ev.in.snaps, cpmod |-> Ev.in.cpmod, f3 |-> FALSE]
+    /\ conf' = [buf |-> Ev.in.buf, q |-> Ev.in.q, snaps |-> Ev.in.snaps, cpmod |-> Ev.in.cpmod, f3 |-> (Ev.in.f3 = 1)]
     /\ clean' = (Ev.in.clean = 1) /\ manual' = 0
 
 ObsBlock ==
@@ -189,6 +190,27 @@ Report_E1 == (\E j \in JobIds : jobs[j].judged /\ ~jobs[j].ok /\ ExplainedE1(j))
 Report_E2 == (\E j \in JobIds : jobs[j].judged /\ ~jobs[j].ok /\ ~ExplainedE1(j) /\ ExplainedE2(j)) => PrintT("@@KFE2 " \o ToString(l - 1))
 
 Report_E3 == (\E j \in JobIds : jobs[j].judged /\ ~jobs[j].ok /\ ~ExplainedE1(j) /\ ~ExplainedE2(j) /\ ExplainedE3(j)) => PrintT("@@KFE3 " \o ToString(l - 1))
+
+\* E5 (trace level: needs the versions seen so far): TakeSnapshot(S) -> RemoveCommitted(S) drops the hashes holder
+\* entries committed up to S, assuming that everything they mark is in the new snapshot DB.  That is false for a node
+\* of an older version that S itself does not contain (S sits on a branch that is rolled back later, or the node was
+\* removed before S and comes back): a later checkpoint of a root that contains the node finds it unmarked and the
+\* snapshot DB lacks it.  A missing node x of checkpoint job j is explained by E4 or by E5:
+E4Node(j, x) == \E k, m \in JobIds : /\ k < m /\ m < j /\ jobs[k].kind = "c" /\ x \in jobs[k].v.n
+                                     /\ jobs[m].kind = "s" /\ x \notin jobs[m].v.n
+\* (k: the snapshot whose RemoveCommitted unmarked x; m: the same or a later snapshot, whose root lacks x and which
+\*  opened the snapshot DB the checkpoint writes to - e.g. a snapshot of an OLDER root after a snapshot of a newer one)
+E5Node(j, x) == \E k, m \in JobIds :
+                    /\ k <= m /\ m < j /\ jobs[k].kind = "s" /\ jobs[m].kind = "s" /\ x \notin jobs[m].v.n
+                    /\ \E r \in DOMAIN vt : vt[r].h <= jobs[k].v.h /\ x \in vt[r].n
+ExplainedE45(j) == /\ jobs[j].kind = "c" /\ jobs[j].miss # {}
+                   /\ \A x \in jobs[j].miss : E4Node(j, x) \/ E5Node(j, x)
+Inv_C10_CompleteUnexplainedT ==
+    \A j \in JobIds : (jobs[j].judged /\ ~jobs[j].ok) =>
+        (ExplainedE1(j) \/ ExplainedE2(j) \/ ExplainedE3(j) \/ ExplainedE45(j))
+Others(j) == ExplainedE1(j) \/ ExplainedE2(j) \/ ExplainedE3(j)
+Report_E4 == (\E j \in JobIds : jobs[j].judged /\ ~jobs[j].ok /\ ~Others(j) /\ ExplainedE4(j)) => PrintT("@@KFE4 " \o ToString(l - 1))
+Report_E5 == (\E j \in JobIds : jobs[j].judged /\ ~jobs[j].ok /\ ~Others(j) /\ ~ExplainedE4(j) /\ ExplainedE45(j)) => PrintT("@@KFE5 " \o ToString(l - 1))
 
 \* high-water mark of consumed lines (register 1), needs -workers 1
 HighWater == TLCSet(1, IF l > TLCGet(1) THEN l ELSE TLCGet(1))
